@@ -578,9 +578,11 @@ def run(tier, replay=None):
 
 def _t(ctx, label):
     if os.environ.get('C09_TIMING'):
+        import resource
         import sys
         import time
-        print('[C09 %6.1fs] %s' % (time.time() - ctx.t0, label), file=sys.stderr)
+        c = resource.getrusage(resource.RUSAGE_CHILDREN)
+        print('[C09 %6.1fs, children cpu %.0f+%.0fs] %s' % (time.time() - ctx.t0, c.ru_utime, c.ru_stime, label), file=sys.stderr)
 
 
 def _run(ctx, quick, rnd, suffix, pool):
@@ -637,7 +639,7 @@ def _run(ctx, quick, rnd, suffix, pool):
             n_sim += 1
 
     # 3. random larger scripts
-    nrand = 1000 if quick else 20000
+    nrand = 1000 if quick else 12000
     for i in range(nrand):
         cases.append(({'origin': 'random-fine' if i % 2 else 'random'}, random_script(rnd, quick, fine=bool(i % 2)), None))
 
